@@ -58,7 +58,9 @@ def many_trees_desc(rng, max_nodes=8, max_segs=8, p_gap=0.15, p_root=0.25, scale
     nodes = []
     for i in range(n):
         samp = (times[i] == 0 and rng.random() < 0.9) or (times[i] > 0 and rng.random() < p_internal)
-        nodes.append([1 if samp else 0, times[i], NULL, NULL, ""])
+        # application-defined flag bits must not matter: only bit 0 makes a sample
+        extra = rng.choice([0, 0, 1 << 16, 1 << 19, (1 << 16) | (1 << 20)])
+        nodes.append([(1 if samp else 0) | extra, times[i], NULL, NULL, ""])
 
     def attach(u):
         older = [v for v in range(n) if times[v] > times[u]]
@@ -248,7 +250,22 @@ def tree_kwargs(opts):
     kw = {"sample_lists": bool(opts.get("sample_lists")),
           "root_threshold": int(opts.get("root_threshold", 1))}
     if opts.get("tracked") is not None:
-        kw["tracked_samples"] = list(opts["tracked"])
+        how = opts.get("tracked_as", "list")
+        tr = list(opts["tracked"])
+        if how == "list":
+            kw["tracked_samples"] = tr
+        else:
+            import numpy as np
+            if how == "int32":
+                kw["tracked_samples"] = np.array(tr, dtype=np.int32)
+            elif how == "int64":
+                kw["tracked_samples"] = np.array(tr, dtype=np.int64)
+            elif how == "strided":      # non-contiguous view
+                buf = np.zeros(2 * len(tr), dtype=np.int32)
+                buf[::2] = tr
+                kw["tracked_samples"] = buf[::2]
+            else:                       # reversed view of the reversed data
+                kw["tracked_samples"] = np.array(tr[::-1], dtype=np.int32)[::-1]
     return kw
 
 
@@ -719,6 +736,7 @@ def random_opts(rng, desc):
     if rng.random() < 0.6:
         tracked = sorted(rng.sample(samples, rng.randrange(0, len(samples) + 1)))
     return {"sample_lists": rng.random() < 0.5, "tracked": tracked,
+            "tracked_as": rng.choice(["list", "list", "int32", "int64", "strided", "reversed"]),
             "root_threshold": rng.choice([1, 1, 2, 3])}
 
 
@@ -933,6 +951,9 @@ class NavIter(Family):
         for _ in range(150 if tier == "quick" else 2000):
             d = random_ts_desc(rng)
             yield {"desc": d, "opts": random_opts(rng, d)}
+        for _ in range(25 if tier == "quick" else 300):  # one-ulp-wide trees: at_index / aslist / copies
+            d = ulp_desc(rng)
+            yield {"desc": d, "opts": random_opts(rng, d)}
         k = 0
         while k < (60 if tier == "quick" else 600):     # small ts: also evaluated in Coq
             d = many_trees_desc(rng, max_nodes=rng.choice([3, 5, 8]), max_segs=rng.choice([2, 4, 7]),
@@ -980,6 +1001,21 @@ class NavIter(Family):
         for i, t in enumerate(lst):
             (t.next if i % 2 == 0 else t.prev)()
             moved.append(it.add(tree_state(t, cmap)))
+        # every navigation op applied to a COPY of every aslist() element (a copy of a positioned
+        # tree must continue in the edge indexes exactly where the original stands), and the
+        # element itself must stay where it was
+        copy_ops = []
+        T_ = ts.num_trees
+        if T_ <= 8:
+            bps_l = [cmap[float(b)] for b in ts.breakpoints(as_array=True)]
+            cand = [["next"], ["prev"]] + [["seek_index", j] for j in range(-1, T_)] + \
+                   [["seek", ["h", (bps_l[j] + bps_l[j + 1]) // 2]] for j in range(T_)]
+            lst2 = ts.aslist(**kw)
+            for i, t in enumerate(lst2):
+                for op in cand:
+                    c = t.copy()
+                    c, _o, ret, exc, _x = apply_op(desc, c, c, op)
+                    copy_ops.append([i, op, ret, exc, it.add(tree_state(c, cmap)), it.add(tree_state(t, cmap))])
         # every __next__ call (T + 2 of them) of a forward and of a reversed iterator
         calls = {}
         for name, mk in (("fwd", lambda: ts.trees(**kw)), ("rev", lambda: reversed(ts.trees(**kw)))):
@@ -995,7 +1031,7 @@ class NavIter(Family):
             calls[name] = seq
         return {"tab": table_obs(ts, cmap), "fresh": fresh, "fwd": fwd, "rev": rev, "end": end,
                 "again": again, "mixed": mixed, "states": it.states, "calls": calls,
-                "aslist": aslist, "aslist_moved": moved,
+                "aslist": aslist, "aslist_moved": moved, "copy_ops": copy_ops,
                 "flags": [int(f) for f in ts.tables.nodes.flags], "nsites": int(ts.num_sites)}
 
     def coq_check(self, case, obs):
@@ -1032,6 +1068,24 @@ class NavIter(Family):
                 for i in range(len(fr))]
         if obs["aslist_moved"] != expm:
             fails.append(("aslist-copies-not-independent", "%r expected %r" % (obs["aslist_moved"], expm)))
+        for i, op, ret, exc, sc, so in obs.get("copy_ops", []):
+            Tn = len(fr)
+            if op[0] == "next":
+                e = i + 1 if i + 1 < Tn else -1
+            elif op[0] == "prev":
+                e = i - 1
+            elif op[0] == "seek_index":
+                e = op[1] % Tn
+            else:
+                e = expected_tree_of(obs["tab"], case["desc"], op[1])
+            exp_state = nullst if e == -1 else fr[e]
+            if exc is not None or sc != exp_state:
+                fails.append(("copy-then-%s" % op[0], "copy of aslist()[%d] then %r: exc=%r, state %r expected %r"
+                              % (i, op, exc, st[sc].get("index"), e)))
+            if so != fr[i]:
+                fails.append(("copy-moved-original", "aslist()[%d] changed when its copy did %r" % (i, op)))
+            if len(fails) > 6:
+                break
         # call by call: yields T trees then StopIteration for ever, tree null afterwards
         T = len(fr)
         for name, order in (("fwd", fr), ("rev", fr[::-1])):
